@@ -17,6 +17,8 @@ pub fn stages(tier: Tier, run: RunFn<Hist>, rule: &'static str) -> Vec<Box<dyn D
         (LangId::Lambda, "hist-lambda", 800, 20_000),
         (LangId::Fgh, "hist-fgh", 800, 20_000),
         (LangId::Sdql, "hist-sdql", 600, 15_000),
+        (LangId::Arith2, "hist-arith2", 500, 10_000),
+        (LangId::ArrayLang, "hist-array", 500, 10_000),
     ];
     for (l, name, q, t) in langs {
         let mut cfg = HistCfg::for_lang(l);
